@@ -51,6 +51,19 @@ VOCAB = {"count_lt", "count_le", "len", "inv"}
 REARRANGE = {"getitem", "argsort", "reshape", "shape", "flatten"}
 
 
+def _shifted_threshold(needle):
+    """needle = T + d with d a non-zero term built from T alone (a tolerance / epsilon / ulp offset)."""
+    p = to_poly(needle)
+    pt = to_poly(T)
+    if p is None or pt is None or needle == T:
+        return False
+    d = p - pt
+    if not d.t or d.is_const():
+        return bool(d.t) and d.const_value() != 0
+    syms = {x for a in d.atoms() for x in ([a] + list(atoms_of(a))) if isinstance(x, Sym)}
+    return bool(syms) and syms <= {T}
+
+
 def understood(term):
     """Only counting atoms over the object's own state and the threshold."""
     permuted = any(isinstance(x, App) and x.fn == "argsort" for x in atoms_of(term))
@@ -98,7 +111,11 @@ def run(ctx, chk, tier):
                                   "cell [..., i, j] holds the count for the same threshold element (a full transpose permutes elements for thresholds of rank >= 2)", ctx.where(CMQ))
                 else:
                     casts = [a for a in atoms_of(tab[name]) if isinstance(a, App) and a.fn == "fresh" and a.kwd("dtype") in (Const("other"), Const("int")) and value_root(a.args[0]) == T]
-                    if casts:
+                    shifted = [a for a in atoms_of(tab[name]) if isinstance(a, App) and a.fn in ("count_lt", "count_le") and len(a.args) == 2 and _shifted_threshold(a.args[1])]
+                    if shifted and not casts:
+                        chk.violation("R01.1", CMQ, inst + ":threshold-shifted", "scores are counted against a moved threshold: %s" % show(shifted[0].args[1], 160),
+                                      "the threshold exactly as given (a score one ulp from the threshold is in the quantifier and lies on a definite side of it)", ctx.where(CMQ))
+                    elif casts:
                         chk.violation("R01.1", CMQ, inst + ":threshold-cast", "threshold cast before counting: %s" % show(casts[0], 120),
                                       "the threshold is compared as given (a cast to the scores' / an integer dtype moves a threshold that is not representable there "
                                       "onto or across a score)", ctx.where(CMQ))
